@@ -38,7 +38,7 @@ func genC10(t *rapid.T) c10Case {
 	ids := []string{"r1", "r2", "r3"}
 	for i := 0; i < n; i++ {
 		l := fmt.Sprintf("op%d", i)
-		kinds := []string{"add", "add", "add", "rem", "disable", "disable", "enable", "reload", "event", "event", "event", "event", "locOff", "locOn", "fact", "sched"}
+		kinds := []string{"add", "add", "add", "rem", "disable", "disable", "enable", "reload", "event", "event", "event", "event", "locOff", "locOn", "fact", "sched", "evaluate", "addEmptySched"}
 		if c.Parent {
 			kinds = append(kinds, "padd", "prem", "pdisable", "penable", "plocOff", "plocOn")
 		}
@@ -46,6 +46,14 @@ func genC10(t *rapid.T) c10Case {
 		switch k := rapid.SampledFrom(kinds).Draw(t, l+".kind"); k {
 		case "add":
 			c.Ops = append(c.Ops, op{K: "addRule", Loc: "L", Id: id, N: int64(rapid.IntRange(0, len(c10Whens)-1).Draw(t, l+".when"))})
+		case "evaluate":
+			// an event that brings its own rule along
+			c.Ops = append(c.Ops, op{K: "evaluate", Loc: "L"})
+		case "addEmptySched":
+			// an event rule that also has a 'schedule' property which says
+			// "no schedule" (B: null rather than "")
+			c.Ops = append(c.Ops, op{K: "addRule", Loc: "L", Id: id, N: int64(rapid.IntRange(0, len(c10Whens)-1).Draw(t, l+".when")),
+				Doc: M{"emptySchedule": true}, B: rapid.Bool().Draw(t, l+".null")})
 		case "sched":
 			// a scheduled rule written under a rule id replaces the rule
 			// (N = -1 marks it)
@@ -144,6 +152,16 @@ func runC10(c c10Case) *vlib.Outcome {
 				newRule := M{"schedule": "+1h", "action": M{"code": "'" + tag + "'"}}
 				if x.N >= 0 {
 					newRule = mkRule(c10Whens[x.N], tag)
+					if e, _ := x.Doc["emptySchedule"].(bool); e {
+						// (an empty schedule is no schedule: the rule
+						// parser and the cron hooks both say so)
+						if x.B {
+							newRule["schedule"] = nil
+						} else {
+							newRule["schedule"] = ""
+						}
+						o.Label("empty-schedule")
+					}
 				} else {
 					o.Label("overwritten-by-scheduled-rule")
 				}
@@ -153,6 +171,12 @@ func runC10(c c10Case) *vlib.Outcome {
 					break
 				}
 				if r := w.addRule(x.Loc, x.Id, newRule); r.Err != nil {
+					if e, _ := x.Doc["emptySchedule"].(bool); e {
+						// (refusing the odd rule is fine: then it was
+						// not added, and nothing has changed)
+						o.Label("empty-schedule-refused")
+						break
+					}
 					o.Fail("ADDRULE_ERROR", "%s: AddRule failed: %v", when, r.Err)
 				} else if had {
 					pendingOverwrite = true
@@ -230,6 +254,27 @@ func runC10(c c10Case) *vlib.Outcome {
 					return o
 				}
 				pendingReload = true
+			case "evaluate":
+				tag := fmt.Sprintf("e%d", i)
+				ev := core.Map{"probe": "1", "evaluate!": map[string]interface{}(mkRule(M{"probe": "1"}, tag))}
+				work, cond := w.locs["L"].ProcessEvent(newCtx(), ev)
+				var vals []string
+				if work != nil {
+					for _, v := range work.Values {
+						vals = append(vals, fmt.Sprint(v))
+					}
+				}
+				if !locOn {
+					if cond == nil || !strings.Contains(strings.ToLower(cond.Msg), "disabled") {
+						o.Fail("DISABLED_LOCATION_SERVED", "%s: ProcessEvent (with an embedded rule) in a disabled location returned %v", when, cond)
+					}
+					if len(vals) > 0 {
+						o.Fail("DISABLED_LOCATION_FIRED", "%s: the embedded rule of an event fired in a disabled location: values %v", when, vals)
+					}
+					o.Label("evaluate-in-disabled-location")
+				} else if cond != nil || len(vals) != 1 || vals[0] != tag {
+					o.Fail("EMBEDDED_RULE_DID_NOT_RUN", "%s: an event with an embedded rule should run exactly that rule (value %q); got values %v, condition %v", when, tag, vals, cond)
+				}
 			case "event":
 				if x.N < 0 || int(x.N) >= len(c10Events) {
 					continue
